@@ -175,6 +175,88 @@ fn gen_handshake(rng: &mut Rng) -> (u64, Tt, Remote, bool) {
     (local, t, r, !rng.chance(1, 10))
 }
 
+
+// ---------------------------------------------------------------- several connections: freshness, replay
+#[derive(Clone, Debug)]
+enum SRemote { No, Ans(Ans), Replay(usize) }
+#[derive(Clone, Debug)]
+struct SConn { info: usize, tt: Tt, remote: SRemote, ev: bool }
+
+fn conn_info(n: usize) -> ConnectionInfo {
+    // what a connection announces about itself (on the accepting side all of it comes from the wire)
+    ConnectionInfo { endpoint_id: uid_of(1), remote_id: uid_of(20 + n as u64), conn_id: uid_of(30 + n as u64), meeting_token: [1u8; 7], peer_verifying_key: vec![] }
+}
+
+/// one connection of a session: returns (challenge sent, answer bytes the remote sent, [result, bound key])
+async fn session_conn(ids: Arc<BTreeMap<u64, Ident>>, c: &SConn, replay: Option<Vec<u8>>) -> (Vec<u8>, Option<Vec<u8>>, Vec<i64>) {
+    let (q_tx, mut q_rx) = mpsc::channel::<QueryProtocol>(4);
+    let (a_tx, a_rx) = mpsc::channel::<Answer>(4);
+    let qs = QueryService::start(q_tx, a_rx);
+    let (ps_tx, mut ps_rx) = mpsc::channel::<PeerConnectionMessage>(8);
+    let peer_service = PeerConnectionService { sender: ps_tx };
+    let (ev_tx, mut ev_rx) = mpsc::channel::<RemoteEvent>(4);
+    if !c.ev { ev_rx.close(); }
+    let bound = Arc::new(tokio::sync::Mutex::new(Vec::<u8>::new()));
+    let ready = Arc::new(AtomicBool::new(true));
+    let info = conn_info(c.info);
+    let ids2 = ids.clone();
+    let remote = c.remote.clone();
+    let (rec_tx, mut rec_rx) = mpsc::channel::<(Vec<u8>, Option<Vec<u8>>)>(2);
+    let remote_task = tokio::spawn(async move {
+        let mut a_tx = Some(a_tx);
+        while let Some(q) = q_rx.recv().await {
+            if let Query::ProveIdentity(ch) = q.query {
+                let bytes = match &remote {
+                    SRemote::No => None,
+                    SRemote::Ans(a) => Some(answer_bytes(&ids2, a, &ch, &[0x5au8; 32])),
+                    SRemote::Replay(_) => replay.clone(),
+                };
+                let _ = rec_tx.send((ch.clone(), bytes.clone())).await;
+                match bytes { Some(b) => { let _ = a_tx.as_ref().unwrap().send(Answer { id: q.id, success: true, complete: true, serialized: b }).await; }
+                              None => { a_tx = None; } }
+            }
+        }
+    });
+    let res = LocalPeerService::initialise_connection(&info, &ids[&1].key, token_type(&ids, &c.tt), &ready, &qs, &bound, &peer_service, &ev_tx).await;
+    let (challenge, sent) = rec_rx.recv().await.unwrap_or((vec![], None));
+    let b = bound.lock().await.clone();
+    let idx = |k: &[u8]| -> i64 { ids.iter().find(|(_, v)| v.key == k).map(|(n, _)| *n as i64).unwrap_or(-2) };
+    let obs = vec![match res { Ok(false) => 0, Ok(true) => 1, Err(_) => 2 }, if b.is_empty() { -1 } else { idx(&b) }];
+    while ps_rx.try_recv().is_ok() {}
+    remote_task.abort();
+    (challenge, sent, obs)
+}
+
+fn sremote_coq(r: &SRemote) -> String {
+    match r {
+        SRemote::No => "SNo".to_string(),
+        SRemote::Replay(j) => format!("(SReplay {}%nat)", j),
+        SRemote::Ans(a) => format!("(SAns {{| a_key := {}; a_sig_by := {}; a_sig_over := 0%N; a_room := {}; a_entity_ok := {}; a_rowsig_ok := {}; a_pubkey_ok := {} |}})",
+                                   gn(a.key), gon(a.sig_by), gb(a.room), gb(a.entity_ok), gb(a.rowsig_ok), gb(a.pubkey_ok)),
+    }
+}
+
+async fn case_session(ids: Arc<BTreeMap<u64, Ident>>, conns: Vec<SConn>, kind: &str, stats: &mut BTreeMap<String, u64>) -> Case {
+    let mut challenges: Vec<Vec<u8>> = vec![];
+    let mut sent: Vec<Option<Vec<u8>>> = vec![];
+    let mut results: Vec<i64> = vec![];
+    for c in &conns {
+        let replay = match &c.remote { SRemote::Replay(j) => sent.get(*j).cloned().flatten(), _ => None };
+        let (ch, bytes, obs) = session_conn(ids.clone(), c, replay).await;
+        if let SRemote::Replay(_) = &c.remote { *stats.entry(format!("session.replay.{}", if obs[0] == 1 { "ACCEPTED" } else { "refused" })).or_insert(0) += 1; }
+        challenges.push(ch); sent.push(bytes); results.extend(obs);
+    }
+    // challenges renamed by first occurrence (1, 2, ..)
+    let mut seen: Vec<Vec<u8>> = vec![];
+    let nonces: Vec<u64> = challenges.iter().map(|c| match seen.iter().position(|s| s == c) { Some(p) => p as u64 + 1, None => { seen.push(c.clone()); seen.len() as u64 } }).collect();
+    *stats.entry(format!("session.challenges.{}", if seen.len() == challenges.len() { "all-distinct" } else { "REPEATED" })).or_insert(0) += 1;
+    let mut obs: Vec<i64> = nonces.iter().map(|n| *n as i64).collect();
+    obs.extend(results);
+    let terms: Vec<String> = conns.iter().map(|c| format!("{{| sc_local := 1%N; sc_tt := {}; sc_remote := {}; sc_ev := {} |}}", tt_coq(&c.tt), sremote_coq(&c.remote), gb(c.ev))).collect();
+    Case { kind: kind.to_string(), coq: format!("CSession {} {}", glist(&nonces.iter().map(|n| gn(*n)).collect::<Vec<_>>()), glist(&terms)), obs,
+           meta: json!({"connections": conns.len(), "identical_connection_infos": conns.iter().enumerate().any(|(i, c)| conns[..i].iter().any(|d| d.info == c.info)), "distinct_challenges": seen.len()}) }
+}
+
 // ---------------------------------------------------------------- invitations on a real PeerManager
 #[derive(Clone, Debug)]
 enum TokRef { Inv(u64), Peer(u64), Own }
@@ -366,6 +448,42 @@ async fn main() {
         cases.push(Case { kind: if n < directed.len() { "handshake-directed".to_string() } else { "handshake".to_string() },
                           coq: format!("CHandshake 0%N {} {} {} {}", gn(local), tt_coq(&t), remote_coq(&r), gb(ev)), obs,
                           meta: json!({"remote": format!("{:?}", r)}) });
+    }
+
+
+    // ---------------- sessions: freshness of the challenge, replayed answers
+    {
+        let ok = |k: u64| Ans { key: k, sig_by: Some(k), sig_over: 0, room: false, entity_ok: true, rowsig_ok: true, pubkey_ok: true };
+        // an honest answer recorded on connection 0 is replayed on a connection that announces the same
+        // parameters, on one with new parameters, and the honest peer connects again with the same parameters
+        let directed = vec![
+            SConn { info: 0, tt: Tt::Allowed(2), remote: SRemote::Ans(ok(2)), ev: true },
+            SConn { info: 0, tt: Tt::Allowed(2), remote: SRemote::Replay(0), ev: true },
+            SConn { info: 1, tt: Tt::Allowed(2), remote: SRemote::Replay(0), ev: true },
+            SConn { info: 0, tt: Tt::Allowed(2), remote: SRemote::Ans(ok(2)), ev: true },
+            SConn { info: 0, tt: Tt::Owned(1), remote: SRemote::Replay(0), ev: true },
+        ];
+        cases.push(case_session(ids.clone(), directed, "session-replay-directed", &mut stats).await);
+        for _ in 0..scale(40, 400) {
+            let n = 3 + rng.below(5) as usize;
+            let mut conns: Vec<SConn> = vec![];
+            for i in 0..n {
+                let answered: Vec<usize> = (0..i).filter(|j| matches!(conns[*j].remote, SRemote::Ans(_))).collect();
+                let (tt, remote, info) = if !answered.is_empty() && rng.chance(2, 5) {
+                    let j = *rng.pick(&answered);
+                    // mostly the very same connection parameters and token type as the recorded connection
+                    (if rng.chance(3, 4) { conns[j].tt.clone() } else { Tt::Owned(1) }, SRemote::Replay(j), if rng.chance(2, 3) { conns[j].info } else { rng.below(3) as usize })
+                } else if rng.chance(1, 8) { (Tt::Allowed(2), SRemote::No, rng.below(3) as usize) }
+                else {
+                    let k = 2 + rng.below(3);
+                    let tt = match rng.below(3) { 0 => Tt::Allowed(k), 1 => Tt::Owned(1), _ => Tt::Invite(2, 1, Some(k)) };
+                    let mut a = ok(k); if rng.chance(1, 8) { a.sig_by = Some(2 + rng.below(3)); }
+                    (tt, SRemote::Ans(a), rng.below(3) as usize)
+                };
+                conns.push(SConn { info, tt, remote, ev: !rng.chance(1, 12) });
+            }
+            cases.push(case_session(ids.clone(), conns, "session", &mut stats).await);
+        }
     }
 
     // ---------------- meeting tokens
